@@ -1,11 +1,15 @@
 package props
 
 import (
+	"bytes"
 	"context"
+	"errors"
 	"fmt"
 	"math"
+	"math/big"
 	"math/rand"
 	"reflect"
+	"regexp"
 	"strings"
 	"time"
 
@@ -631,6 +635,11 @@ func randTNode(r *rand.Rand, depth int) *TNode {
 func init() { c06.Run = runC06 }
 
 func runC06(w *core.W) {
+	for i, n := range hostObjectNames {
+		if w.Mine(i) {
+			c06HostObj(w, &HostObjCase{Name: n})
+		}
+	}
 	initDerivedLeaves()
 	leaf := func(i int) *TNode { return &TNode{K: "leaf", I: i} }
 	idx := 0
@@ -748,3 +757,60 @@ func runC06(w *core.W) {
 		}
 	}
 }
+
+// HostObjCase: host values that are not null, false, a number or text - whatever methods their Go types carry
+// (String() returning "", Error(), IsZero(), Len() == 0 ...) - are truthy, and the selections hand them back unchanged.
+type HostObjCase struct {
+	Name string `json:"name"`
+}
+
+type quietStringer struct{ N int }
+
+func (quietStringer) String() string { return "" }
+
+type zeroLen struct{}
+
+func (zeroLen) Len() int      { return 0 }
+func (zeroLen) IsZero() bool  { return true }
+func (zeroLen) Error() string { return "" }
+
+type falseText struct{}
+
+func (falseText) String() string               { return "false" }
+func (falseText) MarshalText() ([]byte, error) { return []byte("0"), nil }
+
+func hostObjects() map[string]interface{} {
+	return map[string]interface{}{
+		"buf": new(bytes.Buffer), "sb": &strings.Builder{}, "qs": quietStringer{}, "pqs": &quietStringer{}, "zl": zeroLen{}, "pzl": &zeroLen{}, "err0": errors.New(""), "ft": falseText{},
+		"dur0": time.Duration(0), "loc": time.UTC, "emptyStruct": struct{}{}, "ch": make(chan int), "month0": time.Month(0), "rat0": new(big.Rat), "bigint0": new(big.Int), "rx": regexp.MustCompile(""),
+	}
+}
+
+var hostObjectNames = []string{"buf", "sb", "qs", "pqs", "zl", "pzl", "err0", "ft", "loc", "emptyStruct", "ch", "rat0", "bigint0", "rx"}
+
+var c06HostObj = core.Mon(c06, "host-objects-are-truthy", func(w *core.W, c *HostObjCase) {
+	data := hostObjects()
+	x := c.Name
+	w.Count("host_object_cases")
+	w.Nontrivial("hostobj:" + x)
+	src := "[!!" + x + ", " + x + " ? 'T' : 'F', " + x + " || 'D', " + x + " && 'D', " + x + " ?? 'D', (" + x + " ? " + x + " : 0), !!o." + x + ", o." + x + " ? 'T' : 'F', " + x + " == null, [" + x + "]]"
+	data["o"] = map[string]interface{}{x: data[x]}
+	v, err, panicked, pv := resolveIn(data, src)
+	w.Eval(1)
+	if panicked || err != nil {
+		w.Violation("host-objects-are-truthy", "C06/error", c, "ten values", fmt.Sprint(pv, err), src)
+		return
+	}
+	arr, _ := v.([]interface{})
+	if len(arr) != 10 {
+		w.Violation("host-objects-are-truthy", "C06/error", c, "ten values", show(v), src)
+		return
+	}
+	same := func(got interface{}) bool { return obs.Snapshot(got) == obs.Snapshot(data[x]) }
+	inner, _ := arr[9].([]interface{})
+	ok := arr[0] == true && arr[1] == "T" && same(arr[2]) && arr[3] == "D" && same(arr[4]) && same(arr[5]) && arr[6] == true && arr[7] == "T" && arr[8] == false && len(inner) == 1 && same(inner[0])
+	if !ok {
+		w.Violation("host-objects-are-truthy", "C06/host-object-not-truthy-or-not-handed-back", c, "[true, T, x, D, x, x, true, T, false, [x]]", clipS(show(v), 300),
+			fmt.Sprintf("%s with %s = %T: a value that is not null, false, a number or text is truthy and is handed back unchanged", src, x, data[x]))
+	}
+})
